@@ -6,16 +6,21 @@ package storage
 
 import (
 	"bytes"
+
+	"google.golang.org/grpc"
 	"sort"
 
 	"github.com/marekgalovic/anndb/storage/raft"
 	"github.com/marekgalovic/anndb/storage/wal"
 
+	"github.com/marekgalovic/anndb/cluster"
 	"github.com/marekgalovic/anndb/index"
 	pb "github.com/marekgalovic/anndb/protobuf"
 	uuid "github.com/satori/go.uuid"
 )
 
+var _ *cluster.Conn
+var _ *grpc.ClientConn
 var _ bytes.Buffer
 var _ index.Metadata
 var _ sort.Interface
@@ -493,17 +498,47 @@ var _ uuid.UUID
 //@ ensures [after-done] !isnil(ret)
 //@ modifies nothing
 
-//@ func (*storage.Dataset).getDataManagerClient
-//@ props C17 C11 C09 C12
+// C20 / C11: a client for a node is built on the connection cluster.Conn holds for the node at that moment (never kept over a
+// connection that may since have been replaced); a node without address or connection yields an error, never a nil client
+//@ ufunc dmStubOver(pb.DataManagerClient) *grpc.ClientConn
+//@ ufunc searchStubOver(pb.SearchClient) *grpc.ClientConn
+//@ func protobuf.NewDataManagerClient
+//@ props C20 C17 C11 C09 C12
 //@ assume
+//@ ensures [stub] !isnil(ret) && dmStubOver(ret) == asptr(cc.pay, grpc.ClientConn)
+//@ modifies nothing
+//@ func protobuf.NewSearchClient
+//@ props C20 C09
+//@ assume
+//@ ensures [stub] !isnil(ret) && searchStubOver(ret) == asptr(cc.pay, grpc.ClientConn)
+//@ modifies nothing
+//@ spec connBook(c *cluster.Conn) bool = c != nil && c.addresses != nil && c.conns != nil && forall j uint64 :: has(c.conns, j) ==> c.conns[j] != nil
+
+//@ func (*storage.Dataset).getDataManagerClient
+//@ props C17 C11 C09 C12 C20
+//@ safety UNCLAIMED
+//@ ghost dialled *grpc.ClientConn = nil
+//@ at call Conn).Dial
+//@ set dialled = $ret0
+//@ end
+//@ requires [wf] connBook(this.clusterConn) && forall j uint64 :: has(this.dataManagerClients, j) ==> !isnil(this.dataManagerClients[j])
 //@ ensures [client-xor-error] isnil(ret1) != isnil(ret0)
-//@ modifies map(this.dataManagerClients)
+//@ ensures [C20 client-over-the-current-connection] isnil(ret1) && !old(has(this.dataManagerClients, nodeId)) ==> dialled != nil && dmStubOver(ret0) == dialled && has(this.clusterConn.conns, nodeId) && this.clusterConn.conns[nodeId] == dialled
+//@ ensures [C20 C11 unknown-node-is-an-error] !old(has(this.dataManagerClients, nodeId)) && !old(has(this.clusterConn.conns, nodeId)) && !has(this.clusterConn.addresses, nodeId) ==> !isnil(ret1)
+//@ modifies map(this.clusterConn.conns)
 
 //@ func (*storage.Dataset).getNodeSearchClient
-//@ props C09
-//@ assume
+//@ props C09 C20
+//@ safety UNCLAIMED
+//@ ghost dialled *grpc.ClientConn = nil
+//@ at call Conn).Dial
+//@ set dialled = $ret0
+//@ end
+//@ requires [wf] connBook(this.clusterConn) && forall j uint64 :: has(this.searchClients, j) ==> !isnil(this.searchClients[j])
 //@ ensures [client-xor-error] isnil(ret1) != isnil(ret0)
-//@ modifies map(this.searchClients)
+//@ ensures [C20 client-over-the-current-connection] isnil(ret1) && !old(has(this.searchClients, nodeId)) ==> dialled != nil && searchStubOver(ret0) == dialled && has(this.clusterConn.conns, nodeId) && this.clusterConn.conns[nodeId] == dialled
+//@ ensures [C20 unknown-node-is-an-error] !old(has(this.searchClients, nodeId)) && !old(has(this.clusterConn.conns, nodeId)) && !has(this.clusterConn.addresses, nodeId) ==> !isnil(ret1)
+//@ modifies map(this.clusterConn.conns)
 
 //@ func (*storage.partition).isOnNode
 //@ props C17 C11 C09
